@@ -17,6 +17,154 @@ def short(ty):
 
 
 # =============================================================================================
+# module-local normal form: Option / Result combinators with a closure (or fn item) are written out as the match they
+# stand for, the closure body spliced in.   x.and_then(|v| f(v))  ==  match x { Ok(v) => f(v), Err(e) => Err(e) }
+# So `a()?; b()?; Ok(())`, `a().and_then(|()| b())` and `check(..).map(|()| Self {..})` have the same shape for every rule.
+# =============================================================================================
+from .. import normalize as NZ
+from ..facts import Facts as _Facts
+from ..dataflow import Slicer as _Slicer
+
+COMBINATOR = re.compile(r'^(?:std|core)::(option::Option|result::Result)::<.*>::(map|and_then|and|map_or|map_or_else|unwrap_or_else|or_else)$')
+_OK0 = [{'dc': 'Ok'}, {'f': '0', 'of': 'std::result::Result::Ok'}]
+_ERR0 = [{'dc': 'Err'}, {'f': '0', 'of': 'std::result::Result::Err'}]
+
+
+class CombinatorOpener:
+    def __init__(self, F):
+        self.F = F; self.memo = {}; self.stack = []; self.opened_closures = set()
+
+    def body(self, name):
+        if name in self.memo: return self.memo[name]
+        b = self.F.bodies.get(name)
+        if b is None: return None
+        if name in self.stack or len(self.stack) > 6: return b.d
+        self.stack.append(name)
+        try: d = self.open(b.d)
+        except Exception: d = b.d                    # left as it is: the rules see the call and fail closed
+        finally: self.stack.pop()
+        self.memo[name] = d
+        return d
+
+    def open(self, d):
+        if d.get('kind') == 'promoted': return d
+        if not any(b['term']['k'] == 'call' and COMBINATOR.match(T.strip_generics_tail(b['term'].get('r') or b['term'].get('f') or '')) for b in d['blocks']): return d
+        rw = NZ.Rewriter(d)
+        rw.promoted_of = lambda v, callee: v if v in self.F.bodies else (('%s::promoted[%s]' % (callee, re.search(r'::promoted\[(\d+)\]$', v).group(1))) if re.search(r'::promoted\[(\d+)\]$', v) else v)
+        for _ in range(60):
+            if not self._one(rw): break
+        return rw.d if rw.changed else d
+
+    def _callable(self, rw, op):
+        """('closure', body dict, captures, name) | ('fn', const operand) | None"""
+        for _ in range(8):
+            if op['k'] == 'const': return ('fn', op) if (op.get('fnp') or op.get('fn')) else None
+            if op['k'] not in ('copy', 'move') or [x for x in op['pl']['p'] if x != '*']: return None
+            d = rw.single_def(op['pl']['l'])
+            if d is None or d[0] != 'stmt': return None
+            rv = d[2]['rv']
+            if rv['k'] == 'use': op = rv['ops'][0]; continue
+            if rv['k'] == 'ref' and not [x for x in rv['pl']['p'] if x != '*']: op = {'k': 'copy', 'pl': rv['pl']}; continue
+            if rv['k'] == 'agg' and rv['adt'].startswith('closure:'):
+                cd = self.body(rv['adt'][8:])
+                return ('closure', cd, rv['ops'], rv['adt'][8:]) if cd is not None else None
+            return None
+        return None
+
+    def _invoke(self, rw, blk, fn, args, dst, cont, span):
+        """block `blk` runs fn(args) with its result in place dst and continues at cont"""
+        if fn[0] == 'closure':
+            cd, caps, name = fn[1], fn[2], fn[3]
+            if cd['argc'] != 1 + len(args): raise NZ._GiveUp()
+            self.opened_closures.add(name)
+            rw.goto(blk, rw.splice(cd, [NZ._const('()', 'env')] + args, dst, cont, span, captures=caps))
+        else:
+            o = fn[1]; path = o.get('fnp') or o.get('fn') or o['v']; cb = self.F.bodies.get(path)
+            hdr = (cb.hdr if cb is not None else {}) or {}
+            rw.blocks[blk]['term'] = NZ.mk_call(o['v'], path, hdr.get('trait'), hdr.get('self'), hdr.get('item') or path.split('::')[-1], args, dst, cont, span)
+
+    def _one(self, rw):
+        for bi, b in enumerate(rw.blocks):
+            t = b['term']
+            if b['cleanup'] or t['k'] != 'call' or t.get('c08_opened') or t['t'] < 0: continue
+            m = COMBINATOR.match(T.strip_generics_tail(t.get('r') or t.get('f') or ''))
+            if not m: continue
+            t['c08_opened'] = True
+            try:
+                if self._combinator(rw, bi, t, 'Option' if 'option' in m.group(1) else 'Result', m.group(2)): return True
+            except (NZ._GiveUp, KeyError, IndexError, ValueError):
+                pass
+        return False
+
+    def _combinator(self, rw, bi, t, kind, item):
+        B = rw.blocks; span = t.get('span'); line = (span or {}).get('lo', 0)
+        dst = t['dst']; after = t['t']; args = list(t['args'])
+        o = args[0]
+        if o['k'] not in ('copy', 'move'): return False
+        fpos = {'map': [1], 'and_then': [1], 'and': [], 'map_or': [2], 'map_or_else': [1, 2], 'unwrap_or_else': [1], 'or_else': [1]}[item]
+        if item == 'and' and len(args) != 2: return False
+        fns = {}
+        for i in fpos:
+            if i >= len(args): return False
+            fns[i] = self._callable(rw, args[i])
+            if fns[i] is None: return False
+        # everything resolved: rewrite
+        ol = rw.new_local(rw.locals[o['pl']['l']] if not o['pl']['p'] else '?')
+        B[bi]['st'].append(NZ._use(ol, o, line))
+        dl = rw.new_local('isize'); un = rw.new_block(); yes = rw.new_block(); no = rw.new_block()
+        B[bi]['st'].append(NZ._discr(dl, NZ._pl(ol), line))
+        B[bi]['term'] = {'k': 'switch', 'd': NZ._mv(dl), 'ts': ([[0, no], [1, yes]] if kind == 'Option' else [[0, yes], [1, no]]), 'else': un}
+        okp = NZ._mv(ol, NZ.SOME0 if kind == 'Option' else _OK0)
+        errargs = [] if kind == 'Option' else [NZ._mv(ol, _ERR0)]
+        ok_adt = 'std::option::Option::Some' if kind == 'Option' else 'std::result::Result::Ok'
+        def fail_through(blk):          # None stays None, Err(e) stays Err(e)
+            if kind == 'Option': B[blk]['st'].append(NZ._agg(dst, 'std::option::Option::None', [], line=line))
+            else: B[blk]['st'].append(NZ._agg(dst, 'std::result::Result::Err', [NZ._mv(ol, _ERR0)], line=line))
+            rw.goto(blk, after)
+        if item == 'map':
+            r = rw.new_local('?'); nxt = rw.new_block()
+            self._invoke(rw, yes, fns[1], [okp], NZ._pl(r), nxt, span)
+            B[nxt]['st'].append(NZ._agg(dst, ok_adt, [NZ._mv(r)], line=line)); rw.goto(nxt, after)
+            fail_through(no)
+        elif item == 'and_then':
+            self._invoke(rw, yes, fns[1], [okp], dst, after, span); fail_through(no)
+        elif item == 'and':             # x.and(y): y (already evaluated) when x is Some / Ok
+            B[yes]['st'].append(NZ._use(dst, args[1], line)); rw.goto(yes, after); fail_through(no)
+        elif item == 'map_or':
+            self._invoke(rw, yes, fns[2], [okp], dst, after, span)
+            B[no]['st'].append(NZ._use(dst, args[1], line)); rw.goto(no, after)
+        elif item == 'map_or_else':
+            self._invoke(rw, yes, fns[2], [okp], dst, after, span)
+            self._invoke(rw, no, fns[1], errargs, dst, after, span)
+        elif item == 'unwrap_or_else':
+            B[yes]['st'].append(NZ._use(dst, okp, line)); rw.goto(yes, after)
+            self._invoke(rw, no, fns[1], errargs, dst, after, span)
+        elif item == 'or_else':
+            B[yes]['st'].append(NZ._agg(dst, ok_adt, [okp], line=line)); rw.goto(yes, after)
+            self._invoke(rw, no, fns[1], errargs, dst, after, span)
+        rw.changed = True
+        return True
+
+
+def open_combinators(ctx):
+    """replace ctx.F / ctx.S by the facts with the combinators written out (identity when there is nothing to open)"""
+    F = ctx.F
+    if getattr(F, 'c08_opened', False): return
+    try:
+        op = CombinatorOpener(F)
+        dicts = [op.body(n) for n in F.bodies]
+        if all(d is F.bodies[n].d for d, n in zip(dicts, F.bodies)): return
+        F2 = _Facts(F.path, parts=(F.header, dicts, F.adts, F.impls, F.consts))
+        F2.raw = getattr(F, 'raw', F); F2.norm_stats = F.norm_stats
+        F2.inlined_closures = set(getattr(F, 'inlined_closures', ())) | op.opened_closures
+        for k in list(F2._closures): F2._closures[k] = [b for b in F2._closures[k] if b.name not in F2.inlined_closures]
+        F2.c08_opened = True
+        ctx.F = F2; ctx.S = _Slicer(F2, depth=ctx.S.depth)
+    except Exception:
+        return                                           # the rules run on the unopened form and fail closed
+
+
+# =============================================================================================
 # path-sensitive reachability: short-circuit bools (as templates.reach_cp) + the variant of
 # Option / Result / ControlFlow locals built on the path (`Some(x)`, `Err(e)`, `from_residual`, `?`)
 # =============================================================================================
@@ -287,6 +435,19 @@ def errflow_calls(ctx, rule, body, calls, what, none_variant=0):        # shadow
         ctx.check(not bad, rule, 'T-ERRFLOW', body.name, '%s: %s' % (what, '; '.join(sorted(set(bad)))), body.site(c.bb), consumers=[h for k, h in res])
 
 
+def mustcall(ctx, rule, body, call_pred, what, propagate=True):        # shadows common.mustcall (path-sensitive error flow)
+    """T-MUSTCALL: every Ok-exit is dominated by a call matching call_pred; its error propagates
+    (`?`, returned as the function's value, match with the Err side failing, and_then / map written out)"""
+    if body is None: return None
+    oks = body.strict_ok_exits(); good = []
+    for c in [c for c in body.calls if call_pred(c)]:
+        if all(body.dominates(c.bb, e) for e in oks):
+            if propagate and any(k == 'bad' for k, _ in errflow_vp(body, c.dst['l'])): continue
+            good.append(c)
+    ctx.check(bool(good), rule, 'T-MUSTCALL', body.name, 'no call `%s` dominating every Ok-exit%s' % (what, ' with its error propagated' if propagate else ''), body.site(good[0].bb) if good else body.site())
+    return good[0] if good else None
+
+
 # ------------------------------------------------------------------------------- small dataflow helpers
 def lit_of(body, a):
     """string literal an operand evaluates to (directly, or through `let name = "lit"` / references)"""
@@ -320,10 +481,41 @@ def option_place(body, operand_or_place):
     """like place_of, but peels only what keeps the Option's set/unset state (references, copies, as_ref-like adaptors,
     Option::map, tuple components) -- not `?`, ok_or, unwrap or a payload projection, after which the value is the payload"""
     o = operand_or_place if 'k' in operand_or_place else {'k': 'copy', 'pl': operand_or_place}
-    e = T.expr(body, o)
-    while e[0] == 'call' and SAME_OPTION.search(T.strip_generics_tail(e[2])) and e[3]: e = e[3][0]
-    if e[0] == 'place': return e[1], list(e[2])
-    if e[0] == 'proj': return None, list(e[2])
+    for _ in range(4):
+        e = T.expr(body, o)
+        while e[0] == 'call' and SAME_OPTION.search(T.strip_generics_tail(e[2])) and e[3]: e = e[3][0]
+        if e[0] == 'place' and e[2]: return e[1], list(e[2])
+        if e[0] == 'proj': return None, list(e[2])
+        if e[0] in ('local', 'place'):
+            src = option_diamond(body, e[1])          # `x.map(f)` written out: Some(f(v)) on the Some arm of x, None on its None arm
+            if src is not None: o = {'k': 'copy', 'pl': src}; continue
+            return (e[1], []) if e[0] == 'place' else None
+        return None
+    return None
+
+
+def option_diamond(body, l):
+    """local l is assigned Some(..) on the Some arm and None on the None arm of a case split of another Option (the written-out
+    form of Option::map): the place of that Option"""
+    defs = [d for d in body.defs_of(l) if not (d[0] == 'stmt' and d[2]['dst']['p'])]
+    if len(defs) != 2 or any(d[0] != 'stmt' or d[2]['rv']['k'] != 'agg' for d in defs): return None
+    none = [d for d in defs if d[2]['rv']['adt'].endswith('Option::None')]; some = [d for d in defs if d[2]['rv']['adt'].endswith('Option::Some')]
+    if len(none) != 1 or len(some) != 1: return None
+    cur = none[0][1]
+    for _ in range(6):
+        ps = sorted(body.preds.get(cur, ()))
+        if len(ps) != 1: return None
+        t = body.blocks[ps[0]]['term']
+        if t['k'] == 'switch' and t['d']['k'] != 'const':
+            m = {v: tg for v, tg in t['ts']}
+            if m.get(0, t['else']) != cur: return None
+            some_side = reach_vp(body, [m.get(1, t['else'])]) - reach_vp(body, [cur])
+            if some[0][1] not in some_side: return None
+            for k2, b2, d in body.defs_of(t['d']['pl']['l']):
+                if k2 == 'stmt' and d['rv']['k'] == 'discr': return d['rv']['pl']
+            return None
+        if t['k'] not in ('goto', 'drop'): return None
+        cur = ps[0]
     return None
 
 
@@ -1186,13 +1378,37 @@ def ids_rules(ctx):
                     ctx.check(okk, R + '/%s.%s/repeated-is-error' % (short(ty), field), 'T-GUARD', b.name, 'a repeated id is accepted', b.site(c.bb))
                 else:
                     ctx.check(all(b.dominates(c.bb, e) for e in b.strict_ok_exits()), R + '/%s.%s/dominates' % (short(ty), field), 'T-MUSTCALL', b.name, 'check does not dominate the Ok-exit', b.site(c.bb))
+    # every hint of the message is parsed and kept: no element of the lists is dropped before / instead of being checked
+    b = ctx.method(R + '/ConstraintHints/anchor', 'v1::ConstraintHints', 'parse', trait='Parse')
+    if b is not None:
+        aggs = find_aggregates(b, 'instance::ConstraintHints')
+        for fld in ('one_hot_constraints', 'sos1_constraints'):
+            parsed = kept = False; site = b.site()
+            for c in b.calls:
+                if not (c.item in ('parse_as', 'parse') and (c.trait or '').endswith('Parse') and c.args and receiver_field(ctx, b, c.args[0], 'v1::ConstraintHints') == [fld]): continue
+                lo = collection_loop(ctx, b, c.bb, 'v1::ConstraintHints', fld)
+                if lo is None: continue
+                site = b.site(c.bb)
+                it = ctx.S.slice_operand(b, lo[0].args[0])
+                restr = [x.item for x in it.call_objs if x.item in RESTRICTING and 'Iterator' in (x.trait or '')]
+                whole = not restr and all(b.dominates(lo[1], e) for e in b.strict_ok_exits())
+                if whole and T.must_pass(b, lo[2], {lo[1]}, {c.bb}): parsed = True
+                # the parsed hint is stored (push / insert) on every way round the loop, in the collection that becomes the typed list
+                stores = [x for x in b.calls if x.bb in lo[4] and x.item in ('push', 'insert', 'push_back', 'extend') and len(x.args) >= 2 and c in ctx.S.slice_operand(b, x.args[-1]).call_objs]
+                for bi, st in aggs:
+                    op = agg_field_operand(st, fld)
+                    if op is None: continue
+                    fs = ctx.S.slice_operand(b, op)
+                    via = {x.bb for x in stores if x in fs.call_objs}
+                    if whole and via and T.must_pass(b, lo[2], {lo[1]}, via): kept = True
+            ctx.check(parsed, R + '/hints/%s/every-element-parsed' % fld, 'T-LOOPMUST', b.name, 'a hint of `%s` can be skipped without being parsed (an invalid hint is dropped silently)' % fld, site)
+            ctx.check(kept, R + '/hints/%s/every-element-kept' % fld, 'T-LOOPMUST', b.name, 'a parsed hint of `%s` does not always reach the typed list' % fld, site)
     # removed constraints against the active map and their own map; duplicates in Vec parsers
     b = ctx.method(R + '/Vec<RemovedConstraint>/anchor', 'std::vec::Vec<v1::RemovedConstraint>', 'parse', trait='Parse')
     if b is not None:
         ok1 = any(g.requires(False) for g, c in membership_guards(b) if T.access_path(b, c.args[0])[1] == 2)       # param 2 = the active constraints
         ctx.check(ok1, R + '/Vec<RemovedConstraint>/not-an-active-id', 'T-GUARD', b.name, 'a removed constraint sharing its id with an active one is accepted', b.site())
-        sites = unique_insertions(ctx, b)
-        ctx.check(any(s[1] for s in sites), R + '/Vec<RemovedConstraint>/unique', 'T-GUARD', b.name, 'a repeated removed-constraint id is accepted', b.site())
+        unique_map_rule(ctx, R + '/Vec<RemovedConstraint>', b, 'removed-constraint')
     for ty, what in (('std::vec::Vec<v1::Constraint>', 'constraint'), ('std::vec::Vec<v1::DecisionVariable>', 'variable')):
         b = ctx.method(R + '/%s/anchor' % short(ty), ty, 'parse', trait='Parse')
         if b is None: continue
@@ -1230,7 +1446,8 @@ def carry_rules(ctx):
                 ok = s.has_field(src, mf)
                 # simple copies must come from exactly the same-named field
                 if direct: ok = ok and direct == [mf]
-                ctx.check(ok, R + '/%s/%s' % (short(typed), tf), 'T-CARRY', b.name, 'typed field `%s` is not taken from message field `%s` (reads %s)' % (tf, mf, direct or own), b.site(bi))
+                restr = sorted({x.item for x in s.call_objs if x.item in RESTRICTING and 'Iterator' in (x.trait or '')})       # only a part of a repeated field is taken over
+                ctx.check(ok and not restr, R + '/%s/%s' % (short(typed), tf), 'T-CARRY', b.name, ('typed field `%s` is not taken from message field `%s` (reads %s)' % (tf, mf, direct or own)) if not ok else 'typed field `%s` takes over only a part of `%s` (%s)' % (tf, mf, restr), b.site(bi))
 
 
 # =============================================================================================
@@ -1303,7 +1520,8 @@ def path_rules(ctx):
 
 
 def check(ctx):
+    open_combinators(ctx)
     validate_rules(ctx); used_kernel_rules(ctx); enum_parse_rules(ctx); bound_rules(ctx); ids_rules(ctx); carry_rules(ctx); path_rules(ctx)
     # floors = decided instances on the pinned tree
     ctx.floor('C08.validate', 4); ctx.floor('C08.dup', 31); ctx.floor('C08.defined', 19); ctx.floor('C08.parse.required', 15); ctx.floor('C08.parse.bound', 12)
-    ctx.floor('C08.parse.ids', 31); ctx.floor('C08.parse.carry', 39); ctx.floor('C08.parse.default', 4); ctx.floor('C08.parse.path', 30); ctx.floor('C08.used-kernel', 8)
+    ctx.floor('C08.parse.ids', 36); ctx.floor('C08.parse.carry', 39); ctx.floor('C08.parse.default', 4); ctx.floor('C08.parse.path', 30); ctx.floor('C08.used-kernel', 8)
